@@ -136,6 +136,19 @@ def scenarios_c15(ctx, binpath, count):
         fp = w("s_%04d.json" % n, json.dumps(doc))
         n += 1
         sc.append(("simple:%s:%s" % (k, "/".join(map(str, p))), ["--num-threads", "1", fp], None, {"file": fp}))
+    # (a') penalties that do not fit the score arithmetic (>= WEIGHT_OFFSET 50000; >= 2^31 wraps in the cast): inconsistent data
+    pen_paths = [q for q in paths if len(q) == 5 and q[0] == "participants" and q[-1] == "penalty"]
+    for i, v in enumerate([50000, 50001, 60000, 2147483648, 4000000000, 4294967295]):
+        if not pen_paths:
+            break
+        doc = copy.deepcopy(good)
+        q = pen_paths[(i * 7) % len(pen_paths)]
+        cur = doc
+        for k in q[:-1]:
+            cur = cur[k]
+        cur[q[-1]] = v
+        fp = w("pen_%d.json" % i, json.dumps(doc))
+        sc.append(("simple:penalty=%d:%s" % (v, "/".join(map(str, q))), ["--num-threads", "1", fp], dict(default_flags(), consistent=False), {"file": fp}))
     # (b) byte-level damage
     raw = json.dumps(good).encode()
     for i in range(12):
